@@ -770,7 +770,7 @@ fn gen_reply(rng: &mut Rng, cfg: &Cfg, run: &Run, srv: &mut Server, now: u64) ->
     } else {
         1000 + rng.below(3) as u32
     };
-    let class = *rng.pick(&[2u8, 2, 2, 3, 3, 1, 0]);
+    let class = if cfg.mech == 4 { *rng.pick(&[2u8, 2, 3, 3, 3, 3, 1, 0]) } else { *rng.pick(&[2u8, 2, 2, 3, 3, 1, 0]) };
     let method = 1u16;
     let mut attrs: Vec<A> = vec![];
     for _ in 0..rng.below(3) {
@@ -783,19 +783,23 @@ fn gen_reply(rng: &mut Rng, cfg: &Cfg, run: &Run, srv: &mut Server, now: u64) ->
             attrs.push(A::ErrorCode(code));
         }
         if code == 401 {
-            if rng.chance(1, 3) { srv.realm = *rng.pick(&[1u32, 2]) }
+            // a consistent server re-challenges with the same realm and algorithm list most of the time
+            let keep = srv.nonce > 0 && rng.chance(1, 2);
+            if !keep && rng.chance(1, 3) { srv.realm = *rng.pick(&[1u32, 2]) }
             srv.nonce += 1;
-            let with_algs = rng.chance(1, 2);
-            srv.algs = if with_algs {
-                Some(rng.pick(&[vec![Alg::Md5, Alg::Sha256], vec![Alg::Sha256], vec![Alg::Md5], vec![Alg::Other(7), Alg::Md5], vec![Alg::Other(7)], vec![Alg::Sha256, Alg::Md5], vec![]]).clone())
-            } else {
-                None
-            };
+            let with_algs = if keep { srv.algs.is_some() } else { rng.chance(1, 2) };
+            if !keep {
+                srv.algs = if with_algs {
+                    Some(rng.pick(&[vec![Alg::Md5, Alg::Sha256], vec![Alg::Sha256], vec![Alg::Md5], vec![Alg::Other(7), Alg::Md5], vec![Alg::Other(7)], vec![Alg::Sha256, Alg::Md5], vec![]]).clone())
+                } else {
+                    None
+                };
+            }
             srv.alg = match &srv.algs {
                 None => Alg::Md5,
                 Some(l) => if l.contains(&Alg::Sha256) { Alg::Sha256 } else { Alg::Md5 },
             };
-            let cookie = if with_algs { *rng.pick(&[2u32, 2, 4, 0, 1]) } else { *rng.pick(&[0u32, 0, 1, 3, 2, 5, 6]) };
+            let cookie = if with_algs { *rng.pick(&[2u32, 2, 4, 4, 0, 1]) } else { *rng.pick(&[0u32, 0, 1, 3, 3, 2, 5, 6]) };
             if !rng.chance(1, 10) { attrs.push(A::Realm(srv.realm)) }
             if !rng.chance(1, 10) { attrs.push(A::Nonce(srv.nonce, cookie)) }
             if let Some(l) = &srv.algs { attrs.push(A::PwdAlgs(l.clone())) }
